@@ -1,0 +1,157 @@
+/*
+ * SPDX-License-Identifier: Apache-2.0 OR LGPL-2.1-or-later
+ */
+
+//! Verification hooks, compiled only with `--cfg sux_verif`.
+//!
+//! Nothing in this module changes the behaviour of the crate: without an
+//! installed callback every function is a no-op, and without the cfg flag the
+//! module does not exist.
+//!
+//! * [`point`] marks a scheduling point immediately before an atomic memory
+//!   operation; [`HookedSlice`] is a transparent view of a slice of atomics
+//!   that calls [`point`] before every atomic operation performed through it.
+//! * [`event`] records a protocol event of the parallel shard solver.
+
+use common_traits::{AtomicInteger, Integer};
+use core::sync::atomic::{AtomicUsize, Ordering};
+
+pub type PointHook = fn(&'static str, usize);
+pub type EventHook = fn(&'static str, usize, usize);
+
+static POINT_HOOK: AtomicUsize = AtomicUsize::new(0);
+static EVENT_HOOK: AtomicUsize = AtomicUsize::new(0);
+
+/// Installs (or removes) the callback invoked by [`point`].
+pub fn set_point_hook(hook: Option<PointHook>) {
+    POINT_HOOK.store(hook.map_or(0, |h| h as usize), Ordering::SeqCst);
+}
+
+/// Installs (or removes) the callback invoked by [`event`].
+pub fn set_event_hook(hook: Option<EventHook>) {
+    EVENT_HOOK.store(hook.map_or(0, |h| h as usize), Ordering::SeqCst);
+}
+
+/// A scheduling point: called immediately before the atomic operation `site`
+/// on the word of index `word`.
+#[inline]
+pub fn point(site: &'static str, word: usize) {
+    let h = POINT_HOOK.load(Ordering::SeqCst);
+    if h != 0 {
+        // SAFETY: the only non-zero values stored are valid `PointHook`s.
+        let h: PointHook = unsafe { core::mem::transmute::<usize, PointHook>(h) };
+        h(site, word);
+    }
+}
+
+/// A protocol event with two integer arguments.
+#[inline]
+pub fn event(site: &'static str, a: usize, b: usize) {
+    let h = EVENT_HOOK.load(Ordering::SeqCst);
+    if h != 0 {
+        // SAFETY: the only non-zero values stored are valid `EventHook`s.
+        let h: EventHook = unsafe { core::mem::transmute::<usize, EventHook>(h) };
+        h(site, a, b);
+    }
+}
+
+/// A view of a slice of atomics whose elements are handed out as
+/// [`HookedRef`]s.
+#[derive(Clone, Copy)]
+pub struct HookedSlice<'a, A>(&'a [A]);
+
+impl<'a, A: AtomicInteger> HookedSlice<'a, A>
+where
+    A::NonAtomicType: Integer,
+{
+    #[inline(always)]
+    pub fn new(slice: &'a [A]) -> Self {
+        Self(slice)
+    }
+
+    /// # Safety
+    /// Same as [`slice::get_unchecked`].
+    #[inline(always)]
+    pub unsafe fn get_unchecked(&self, index: usize) -> HookedRef<'a, A> {
+        HookedRef(self.0.get_unchecked(index), index)
+    }
+
+    #[inline(always)]
+    pub fn get(&self, index: usize) -> Option<HookedRef<'a, A>> {
+        self.0.get(index).map(|a| HookedRef(a, index))
+    }
+
+    #[inline(always)]
+    pub fn len(&self) -> usize {
+        self.0.len()
+    }
+}
+
+/// A reference to an atomic that calls [`point`] before every operation.
+#[derive(Clone, Copy)]
+pub struct HookedRef<'a, A>(&'a A, usize);
+
+impl<A: AtomicInteger> HookedRef<'_, A>
+where
+    A::NonAtomicType: Integer,
+{
+    #[inline(always)]
+    pub fn load(&self, order: Ordering) -> A::NonAtomicType {
+        point("load", self.1);
+        self.0.load(order)
+    }
+    #[inline(always)]
+    pub fn store(&self, value: A::NonAtomicType, order: Ordering) {
+        point("store", self.1);
+        self.0.store(value, order)
+    }
+    #[inline(always)]
+    pub fn swap(&self, value: A::NonAtomicType, order: Ordering) -> A::NonAtomicType {
+        point("swap", self.1);
+        self.0.swap(value, order)
+    }
+    #[inline(always)]
+    pub fn compare_exchange(
+        &self,
+        current: A::NonAtomicType,
+        new: A::NonAtomicType,
+        success: Ordering,
+        failure: Ordering,
+    ) -> Result<A::NonAtomicType, A::NonAtomicType> {
+        point("cas", self.1);
+        self.0.compare_exchange(current, new, success, failure)
+    }
+    #[inline(always)]
+    pub fn compare_exchange_weak(
+        &self,
+        current: A::NonAtomicType,
+        new: A::NonAtomicType,
+        success: Ordering,
+        failure: Ordering,
+    ) -> Result<A::NonAtomicType, A::NonAtomicType> {
+        point("cas", self.1);
+        // Under the controlled scheduler a spurious failure would make retry
+        // loops unbounded; the strong version is a legal implementation.
+        self.0.compare_exchange(current, new, success, failure)
+    }
+    #[inline(always)]
+    pub fn fetch_and(&self, value: A::NonAtomicType, order: Ordering) -> A::NonAtomicType {
+        point("fetch_and", self.1);
+        self.0.fetch_and(value, order)
+    }
+    #[inline(always)]
+    pub fn fetch_or(&self, value: A::NonAtomicType, order: Ordering) -> A::NonAtomicType {
+        point("fetch_or", self.1);
+        self.0.fetch_or(value, order)
+    }
+    #[inline(always)]
+    pub fn fetch_xor(&self, value: A::NonAtomicType, order: Ordering) -> A::NonAtomicType {
+        point("fetch_xor", self.1);
+        self.0.fetch_xor(value, order)
+    }
+    #[inline(always)]
+    pub fn fetch_nand(&self, value: A::NonAtomicType, order: Ordering) -> A::NonAtomicType {
+        point("fetch_nand", self.1);
+        self.0.fetch_nand(value, order)
+    }
+}
